@@ -108,4 +108,74 @@ theorem mini_zero_reachable (v4 : Bool) (ops : List GOp) :
   obtain ⟨p', hw', hz, hfr⟩ := miniZero_blk j.ss hids hp nd (hin m hlt)
   exact ⟨l, p', hids, hw', hz, fun m2 hne2 h2 => hfr m2 hne2 (hin m2 h2)⟩
 
+/-- the mini stream's chain of a reachable state whose MiniFAT is not empty, with everything the
+mini-chain content theorems ask of it -/
+theorem root_chain_reachable (v4 : Bool) (ops : List GOp) :
+    let g0 : G := { p := Phys.create v4, L := fun _ => 0 }
+    WritesInRange g0 ops → MiniBounded g0 ops → (grun g0 ops).p.fat.size ≤ MAXREG + 1 →
+    0 < (grun g0 ops).p.miniFat.size →
+    ∃ root, chainIds (grun g0 ops).p (grun g0 ops).p.rootStart = .ok root ∧ Present (grun g0 ops).p root ∧ root.Nodup ∧
+      SS (grun g0 ops).p ∧
+      ∀ m, m < (grun g0 ops).p.miniFat.size → m / (grun g0 ops).p.per < root.length := by
+  intro g0 hw hm hb hpos
+  have j := regLen_reachable v4 ops hw hb
+  have fit := (miniFit_reachable v4 ops hw hm hb).1
+  have c := rootI_reachable v4 ops hw hb
+  have hcov := rootCoverB_of hb c
+  obtain ⟨l, ml, hc, _⟩ := c
+  have hch : (grun g0 ops).p.rootStart ≠ END ∧ IsChain (grun g0 ops).p.fat (grun g0 ops).p.rootStart l := by
+    rcases ml with ⟨he, hl⟩ | ⟨hne, ch⟩
+    · exfalso
+      have hr : (grun g0 ops).p.miniFat.size ≤ (grun g0 ops).p.rootLen / 64 := fit.root
+      rw [hl] at hc
+      have h0 : (grun g0 ops).p.rootLen = 0 := by simpa using hc
+      rw [h0] at hr
+      have : (grun g0 ops).p.miniFat.size = 0 := by simpa using hr
+      omega
+    · exact ⟨hne, ch⟩
+  have hids : chainIds (grun g0 ops).p (grun g0 ops).p.rootStart = .ok l := chainIds_of_isChain hb hch.2
+  exact ⟨l, hids, present_of_isChain j.jc.inv hch.2, isChain_nodup hch.2, j.ss,
+    fun m' h' => mini_in_root fit hcov hids h'⟩
+
+/-- **in every reachable state of the store machine, writing inside one small stream's mini chain leaves
+every other small stream's bytes as they were**: `miniChainWrite_frame` with its premises discharged —
+the two chains are those of two entries with different start mini sectors (`MiniLen`: every small
+non-empty stream has one), they share no mini sector because no two heads of the MiniFAT reach the
+same cell (`NSH.disjoint`, no-sharing invariant), their mini sectors lie inside the mini stream
+(`mini_in_root`) -/
+theorem mini_write_frame_reachable (v4 : Bool) (ops : List GOp) :
+    let g0 : G := { p := Phys.create v4, L := fun _ => 0 }
+    WritesInRange g0 ops → MiniBounded g0 ops → (grun g0 ops).p.fat.size ≤ MAXREG + 1 →
+    ∀ e1 ∈ (grun g0 ops).p.starts, ∀ e2 ∈ (grun g0 ops).p.starts, e1.2 ≠ e2.2 →
+    (grun g0 ops).L e1.1 < CUTOFF → 0 < (grun g0 ops).L e1.1 → (grun g0 ops).L e2.1 < CUTOFF → 0 < (grun g0 ops).L e2.1 →
+    ∀ l1 l2, IsChain (grun g0 ops).p.miniFat e1.2 l1 → IsChain (grun g0 ops).p.miniFat e2.2 l2 →
+    ∀ (off : Nat) (bs : Bytes), off + bs.length ≤ l1.length * 64 →
+    ∃ root p', chainIds (grun g0 ops).p (grun g0 ops).p.rootStart = .ok root ∧
+      miniChainWrite (bs.length + 2) (grun g0 ops).p l1 off bs = .ok (p', l1) ∧
+      miniBytes p' root l2 = miniBytes (grun g0 ops).p root l2 := by
+  intro g0 hw hm hb e1 he1 e2 he2 hne hc1 hp1 hc2 hp2 l1 l2 c1 c2 off bs hlen
+  have ja := lengths_reachable v4 ops hw hm hb
+  have hin_of : ∀ {a : Nat} {l : List Nat}, IsChain (grun g0 ops).p.miniFat a l → ∀ x ∈ l, x < (grun g0 ops).p.miniFat.size := by
+    intro a l c x hx
+    obtain ⟨w, hw', _⟩ := c.used x hx
+    exact lt_of_get hw'
+  obtain ⟨t1, et1⟩ := c1.head
+  have hpos : 0 < (grun g0 ops).p.miniFat.size :=
+    Nat.lt_of_le_of_lt (Nat.zero_le _) (hin_of c1 e1.2 (by rw [et1]; simp))
+  obtain ⟨root, hids, hp, ndr, ss, hin⟩ := root_chain_reachable v4 ops hw hm hb hpos
+  have hne1 : e1.2 ≠ END := ((ja.ml e1 he1 hc1).2 hp1).1
+  have hne2 : e2.2 ≠ END := ((ja.ml e2 he2 hc2).2 hp2).1
+  have hm1 : e1.2 ∈ mregs (grun g0 ops).p.starts (grun g0 ops).L := by
+    unfold mregs
+    exact List.mem_map.mpr ⟨e1, List.mem_filter.mpr ⟨he1, by simp [isMiniStart, hc1, hne1]⟩, rfl⟩
+  have hm2 : e2.2 ∈ mregs (grun g0 ops).p.starts (grun g0 ops).L := by
+    unfold mregs
+    exact List.mem_map.mpr ⟨e2, List.mem_filter.mpr ⟨he2, by simp [isMiniStart, hc2, hne2]⟩, rfl⟩
+  have hdisj : ∀ m ∈ l2, m ∉ l1 := by
+    intro m h2 h1
+    exact hne (ja.jm.nc.ns.disjoint hm1 hm2 (c1.reach m h1) (c2.reach m h2))
+  obtain ⟨p', hw', hb', _⟩ := miniChainWrite_frame (grun g0 ops).p l1 l2 [] off bs ss hids hp ndr (isChain_nodup c1)
+    (fun m h => hin m (hin_of c1 m h)) hlen (fun m h => hin m (hin_of c2 m h)) hdisj (by intro id hid; cases hid)
+  exact ⟨root, p', hids, hw', hb'⟩
+
 end CfbVerif.Phys
